@@ -275,10 +275,15 @@ def main():
         elif 'VERIFICATION FAILED' in out:
             failed = re.findall(r'^\[(.*?)\] .*?: FAILURE$', out, re.M)
             lines_failed = [l for l in out.split('\n') if l.endswith(': FAILURE')]
-            ints = {};
-            for mm in re.finditer(r'cex_int\[(\d+)l?\]=(\d+)', out): ints[int(mm.group(1))] = int(mm.group(2))
-            byts = {}
-            for mm in re.finditer(r'cex_bytes\[(\d+)l?\]\[(\d+)l?\]=(\d+)', out): byts.setdefault(int(mm.group(1)), {})[int(mm.group(2))] = int(mm.group(3))
+            # inputs = the nondet return values in call order (assignments to the cex_* recorders may be sliced away)
+            u64s = [int(v) for v in re.findall(r'return_value_nondet_u64=(\d+)', out)]
+            u8s = [int(v) for v in re.findall(r'return_value_nondet_u8=(\d+)', out)]
+            ints = dict(enumerate(u64s)); byts = {}
+            pos = 0; nb_ = 0
+            for kind_, nm_ in x.get('input_names', []):
+                if kind_ == 'bytes':
+                    ln_ = x.get('byte_len', {}).get(nm_, len(u8s) - pos)
+                    byts[nb_] = {i: u8s[pos + i] for i in range(min(ln_, len(u8s) - pos))}; pos += ln_; nb_ += 1
             inputs = {}; order = []
             names = x.get('input_names', [])
             ni = 0; nb = 0
